@@ -113,11 +113,13 @@ structure CSim where
   predictedLost : Bool := false       -- Index.Put on a key that is present by now (the Put is lost)
 deriving Repr
 
-def concInit (imm : Bool) (spec : List (Bytes × Bytes)) (programs : List (String × List String)) : Option CSim :=
+def concInit (imm : Bool) (spec : List (Bytes × Bytes)) (programs : List (String × List String)) (collectorAlone : Bool := false) : Option CSim :=
   let model := programs.filter fun (_, ops) => ops.all fun o => (concOfOp o).isSome
   let others := programs.filter fun (_, ops) => !(ops.all fun o => (concOfOp o).isSome)
-  -- threads that only flush do not touch the abstract state; collectors are not modelled
-  if others.any (fun (_, ops) => ops.any fun o => !(o == "flush")) then none else
+  -- threads that only flush do not touch the abstract state; collectors are not modelled - except in window schedules, where no
+  -- call overlaps a step of the collector: there a GC cycle, whole or stopped at the window, must leave the contents alone
+  -- (C04), so the collector is replayed as a thread that does nothing
+  if others.any (fun (_, ops) => ops.any fun o => !(o == "flush" || (collectorAlone && (o.startsWith "pgc:" || o.startsWith "igc:")))) then none else
   let pri := spec.map fun (g, v) => (g, v)
   let idx := (List.range spec.length).zip spec |>.map fun (i, (g, _)) => (g, i)
   some { s := { imm := imm, idx := idx, pri := pri,
@@ -361,12 +363,13 @@ def step (st : St) (l : Line) : St × List Msg :=
       -- a thread that blocked (on a lock held by a parked thread) later runs truly in parallel with the scheduled one: the log
       -- order no longer determines the order of the sections
       if l.args.get "locks" = "1" ∨ st.profile = "c12" ∨ evs.any (fun e => (e.splitOn ":blocked:").length > 1) then ([], none) else
-      match concInit st.imm st.spec st.programs with
+      match concInit st.imm st.spec st.programs (evs.any (·.startsWith "window:open")) with
       | none => ([], none)
       | some c0 =>
         let c := evs.foldl concEvent c0
         ((c.bad.take 3).map (fun b => Msg.corr s!"section model: {b}") ++
         (if c.bad.isEmpty ∧ c.steps > 0 then [Msg.flag "conc-model-agrees"] else []) ++
+        (if c.bad.isEmpty ∧ c.steps > 0 ∧ evs.any (·.startsWith "window:open") then [Msg.flag "conc-model-agrees-around-collector"] else []) ++
         (if c.predictedErr then [Msg.flag "conc-model-predicts-update-error"] else []) ++
         (if c.predictedLost then [Msg.flag "conc-model-predicts-lost-put"] else []),
         if c.bad.isEmpty ∧ stuck.isEmpty ∧ c.s.threads.all (fun t => t.prog.isEmpty) then some c.s else none)
